@@ -91,6 +91,7 @@ type FuncGen struct {
 	iterState map[ssa.Value]*iterInfo
 	assumed []string
 	callsExternalUnmodelled map[string]bool
+	recN map[string]int
 	order []*ssa.BasicBlock
 	heapSeen map[string]bool
 	siteOrd map[*ssa.Call]int
@@ -1294,6 +1295,12 @@ func (fg *FuncGen) finishLoops() {
 					Text: "loop over a map carries an invariant (tagged C15) that determines its effect from the set of members visited, whatever the order"})
 			}
 		}
+		// C09: a loop that is not a range loop (whose trip count Go fixes on entry) must carry a decreases clause
+		if !fg.loopIsRange(li) && (li.spec == nil || li.spec.Decreases == nil) {
+			fg.obls = append(fg.obls, &Obligation{Name: fmt.Sprintf("%s/term.loop%d", shortKey(fg.key), li.ordinal), Kind: "term", Func: fg.key, Tags: []string{"C09"},
+				Guard: "true", Goal: "false", Expect: "unsat", Block: -2, Via: -1, Pos: fg.g.pos(li.pos),
+				Text: "a loop that is not a range loop carries a decreases clause (a non-negative integer measure that every iteration lowers)"})
+		}
 		for _, p := range b.Preds {
 			if !fg.isBackEdge(p, b) {
 				continue
@@ -1852,4 +1859,29 @@ func (fg *FuncGen) pendSet(t TTerm, val bool) {
 func newBareFuncGen(g *Gen, key string) *FuncGen {
 	return &FuncGen{g: g, key: key, ver: map[string]int{}, counters: map[string]int{}, reach: map[*ssa.BasicBlock]string{},
 		callsExternalUnmodelled: map[string]bool{}}
+}
+
+// loopIsRange: the loop is a range loop over a slice, array, string, integer or map; Go fixes the number of
+// iterations of such a loop when it is entered (the hidden index or iterator cannot be assigned by the body).
+func (fg *FuncGen) loopIsRange(li *loopInfo) bool {
+	for _, in := range li.header.Instrs {
+		switch x := in.(type) {
+		case *ssa.Phi:
+			if x.Comment == "rangeindex" {
+				return true
+			}
+		case *ssa.Next:
+			return true
+		}
+	}
+	return false
+}
+
+// recSeq numbers the calls to one callee inside a recursive cycle (source order of translation)
+func (fg *FuncGen) recSeq(key string) int {
+	if fg.recN == nil {
+		fg.recN = map[string]int{}
+	}
+	fg.recN[key]++
+	return fg.recN[key]
 }
